@@ -19,6 +19,7 @@ open Bluge.Index List
 @[simp] theorem ack_batch (p : Phase) (h : Bool) : (p.ack h).batch = p.batch := by cases p <;> rfl
 @[simp] theorem ack_tInv (p : Phase) (h : Bool) : (p.ack h).tInv = p.tInv := by cases p <;> rfl
 @[simp] theorem ack_tRet? (p : Phase) (h : Bool) : (p.ack h).tRet? = p.tRet? := by cases p <;> rfl
+@[simp] theorem ack_tPrep? (p : Phase) (h : Bool) : (p.ack h).tPrep? = p.tPrep? := by cases p <;> rfl
 
 theorem upd_same (f : Nat → Option Phase) (c : Nat) (p : Phase) : upd f c p c = some p := by simp [upd]
 theorem upd_other (f : Nat → Option Phase) {c x : Nat} (p : Phase) (h : x ≠ c) : upd f c p x = f x := by simp [upd, h]
@@ -56,6 +57,29 @@ theorem StampsOK.intro {s : State} {c : Nat} {ph : Phase} (h : StampsOK s c ph) 
     simp only [Phase.intro?, Option.some.injEq, Prod.mk.injEq] at hi
     obtain ⟨rfl, rfl⟩ := hi
     exact ⟨h.2.2.2.2, Nat.lt_trans h.2.2.1 h.2.2.2.1, Nat.lt_trans h.1 h.2.1⟩
+
+/-- a prepared call: prepared after it was invoked and before it was introduced -/
+theorem StampsOK.prep {s : State} {c : Nat} {ph : Phase} (h : StampsOK s c ph) {tp : Nat} (hp : ph.tPrep? = some tp) :
+    ph.tInv < tp ∧ ∀ i ti, ph.intro? = some (i, ti) → tp < ti := by
+  cases ph with
+  | invoked b t0 => simp [Phase.tPrep?] at hp
+  | prepared b t0 sid n tp' =>
+    simp only [Phase.tPrep?, Option.some.injEq] at hp; subst hp
+    exact ⟨h.1, by intro i ti hi; simp [Phase.intro?] at hi⟩
+  | introduced b t0 tp' i' ti' a =>
+    simp only [Phase.tPrep?, Option.some.injEq] at hp; subst hp
+    refine ⟨h.1, ?_⟩
+    intro i ti hi
+    simp only [Phase.intro?, Option.some.injEq, Prod.mk.injEq] at hi
+    obtain ⟨rfl, rfl⟩ := hi
+    exact h.2.1
+  | returned b t0 tp' i' ti' tr =>
+    simp only [Phase.tPrep?, Option.some.injEq] at hp; subst hp
+    refine ⟨h.1, ?_⟩
+    intro i ti hi
+    simp only [Phase.intro?, Option.some.injEq, Prod.mk.injEq] at hi
+    obtain ⟨rfl, rfl⟩ := hi
+    exact h.2.1
 
 /-- a returned call: introduced before it returned -/
 theorem StampsOK.ret {s : State} {c : Nat} {ph : Phase} (h : StampsOK s c ph) {tr : Nat} (hr : ph.tRet? = some tr) :
